@@ -200,9 +200,13 @@ TREES["hub6"] = dict(vars=dict([("h", [10, 0])] + [("y%d" % i, [10, 0]) for i in
 def h_tree(env):
     p = env.params
     algo = p["algo"]
-    spec = TREES[p["spec"]]
-    mode = env.choice("mode", ["min", "max"])
     seed = p["inst_seed"]
+    if p["spec"].startswith("randtree"):
+        # a random tree / forest of n variables (+ unary factors): deeper and wider than the named shapes
+        spec = fx.random_spec(seed, int(p["spec"][8:]), tree=True, connected=p.get("connected", True), max_dom=p.get("max_dom", 3))
+    else:
+        spec = TREES[p["spec"]]
+    mode = env.choice("mode", ["min", "max"])
     rng = _pyrandom.Random(seed * 1009 + p.get("_seed", 0))
     pool = p.get("pool", list(range(0, 12)))
 
@@ -292,6 +296,13 @@ def _tree_shapes(algo):
                 if i % 5 == 4:
                     d["algo_params"] = dict(start_messages="leafs_vars")
                 q.append(d)
+        for i in range(8 if tier == "quick" else 60):
+            d = dict(algo=algo, spec="randtree%d" % (5 + i % 4), inst_seed=200 + i, connected=bool(i % 3), pool=list(range(0, 40)))
+            if i % 2:
+                d.update(start_order="shuffle", policy="random", sched_seed=i)
+            if i % 4 == 2:
+                d["algo_params"] = dict(start_messages=("all", "leafs_vars")[(i // 4) % 2])
+            q.append(d)
         if algo == "amaxsum":
             for i, spec in enumerate(["chain3", "star_nary", "forest", "chain3_unary"]):
                 q.append(dict(algo=algo, spec=spec, inst_seed=100 + i, pause_resume_after=2 + i))
